@@ -28,6 +28,7 @@ type Inst struct {
 	Name string
 	Kind Kind
 	Rows uint8 // configured TotalRows of a map forest
+	nohash bool // a full map forest that is given targets-only proofs for its own blocks and their undo
 
 	S utreexo.Stump
 	P *utreexo.Pollard
@@ -156,7 +157,10 @@ func NewWorld(sy *Symb, c WorldCfg) *World {
 	// the same forests on storage back-ends that are not the library's own maps
 	if c.MapFull {
 		w.insts = append(w.insts, &Inst{Name: "map.full.63.custom", Kind: KMapFull, Rows: 63, M: newMapCustom(true, 63)},
-			&Inst{Name: "map.full.0.custom", Kind: KMapFull, Rows: 0, M: newMapCustom(true, 0)})
+			&Inst{Name: "map.full.0.custom", Kind: KMapFull, Rows: 0, M: newMapCustom(true, 0)},
+			// a full forest needs no proof hashes for its own blocks: Modify and Undo are given the targets only
+			&Inst{Name: "map.full.63.nohash", Kind: KMapFull, Rows: 63, M: newMap(true, 63), nohash: true},
+			&Inst{Name: "map.full.0.nohash", Kind: KMapFull, Rows: 0, M: newMap(true, 0), nohash: true})
 	}
 	if c.MapPart {
 		w.insts = append(w.insts, &Inst{Name: "map.part.63.custom", Kind: KMapPart, Rows: 63, M: newMapCustom(false, 63), cached: map[int]bool{}},
@@ -447,6 +451,9 @@ func (w *World) applyMod(st *Step) {
 					leaves[i] = utreexo.Leaf{Hash: a}
 				}
 				adds := g.L("adds", leaves)
+				if in.nohash {
+					proof = utreexo.Proof{Targets: tg}
+				}
 				err = in.acc().Modify(adds, dels, proof)
 			case KMapPart:
 				// a partial forest can only delete what it has cached:
@@ -590,7 +597,11 @@ func (w *World) applyUndo(st *Step) {
 		pr := g.H("prevRoots", prevRoots)
 		var err error
 		pan := protect(func() {
-			err = in.acc().Undo(uint64(st.K), utreexo.Proof{Targets: tg, Proof: pf}, dh, pr)
+			up := utreexo.Proof{Targets: tg, Proof: pf}
+			if in.nohash {
+				up = utreexo.Proof{Targets: tg}
+			}
+			err = in.acc().Undo(uint64(st.K), up, dh, pr)
 		})
 		g.end()
 		if in.Kind == KMapPart {
